@@ -97,6 +97,14 @@ def cases(tier, seed):
     d.update(GEOS[1])
     d.update({"int_line": True, "time": 0.25, "seed": seed, "nspecies": 2, "ghost": 2})
     out.append({"desc": d, "opts": [[True, False, True]], "source": "list", "schedules": False})
+    # 27 + 20 boxes over five files per data subset, each subset scattered differently
+    m = scope.many_box_mesh()
+    d = {"domain": m["domain"], "levels": m["levels"]}
+    d.update(GEOS[1])
+    d.update({"layouts": {"state": [scope.scattered_layout(27, 5), scope.scattered_layout(20, 3)],
+                          "gradp": [scope.scattered_layout(27, 4), None], "I_R": [None, scope.scattered_layout(20, 5)]},
+              "ghost": 1, "nspecies": 2, "time": 0.5, "seed": seed, "int_line": False})
+    out.append({"desc": d, "opts": [[True, True, True], [False, False, False]], "source": "list", "schedules": False, "w": 20})
     # seven levels towards the far corner, three species (ten state components): FAB header lines longer than 100 bytes
     m = scope.deep_corner_mesh()
     d = {"domain": m["domain"], "levels": m["levels"]}
